@@ -211,6 +211,14 @@ func (cms *CountMinSketchRedis) Import(data []byte, withNewKey bool) error {
 	} else {
 		cms.key = s.Key
 	}
+	metadata := make(map[string]interface{})
+	metadata["rows"] = cms.rows
+	metadata["columns"] = cms.columns
+	metadata["key"] = cms.key
+	err = getRedisClient().HSet(context.Background(), cms.metadataKey, metadata).Err()
+	if err != nil {
+		return fmt.Errorf("gostatix: error importing count min sketch redis, error: %v", err)
+	}
 	return cms.setMatrix(s.Matrix)
 }
 
